@@ -38,9 +38,19 @@ class TorchCalls(TorchOps):
             return self.accumulate(args[0], node)
         if name in ("math.ceil", "math.floor"):
             t = tv_of(args[0])
-            self.ev("ceil", node, what=name)
-            return TV(kind="pyint", note=f"{name.split('.')[-1]}", origin=t.origin if t else frozenset(),
-                      poly=None) if t is not None else self.unk(name, node)
+            if t is None:
+                return self.unk(name, node)
+            kind = name.split(".")[-1]
+            poly = None
+            if t.poly is not None:
+                c = t.poly.const_value()
+                if c is not None:
+                    import math as _m
+                    poly = Poly.const(_m.ceil(c) if kind == "ceil" else _m.floor(c))
+                else:
+                    poly = self.derived_sym(kind, t.poly)
+            self.ev("ceil", node, what=name, arg_poly=t.poly)
+            return TV(kind="pyint", note=kind, origin=t.origin, poly=poly)
         if name == "math.sqrt":
             t = tv_of(args[0])
             return t.but(deg=deg_scale(t.deg, HALF), poly=None) if t is not None else self.unk(name, node)
@@ -232,7 +242,10 @@ class TorchCalls(TorchOps):
         stop = ts[0] if len(ts) == 1 else (ts[1] if len(ts) >= 2 else None)
         start = ts[0] if len(ts) >= 2 else None
         full_rows = stop is not None and stop.size_of == "R" and (start is None or self.const_int(args[0]) == 0) and len(args) < 3
-        elem = TV(kind="pyint", idx_of="R" if full_rows else None, note="range-index", poly=None,
+        self._range_n = getattr(self, "_range_n", 0) + 1
+        ivar = f"i#{self._range_n}"
+        self.ev("range", node, var=ivar, stop_poly=stop.poly if stop is not None else None, start_poly=start.poly if start is not None else None, nargs=len(args))
+        elem = TV(kind="pyint", idx_of="R" if full_rows else None, note="range-index", poly=Poly.sym(ivar) if not full_rows else None,
                   p=True, origin=(stop.origin if stop is not None else frozenset()) | {"loop-index"})
         return ListV(items=None, elem=elem, kind="list", over="R" if full_rows else None,
                      order=(("range", repr(stop.poly) if stop is not None and stop.poly is not None else "?"), "same"),
